@@ -39,6 +39,14 @@ def run(ctx):
     for t in texts[5:8]:
         ctx.sample(t)
     if PID == 'C03':
+        from .. import tlc as _tlc
+        # _group (infix joiner) with its real index bookkeeping keeps the live list well-formed for every token sequence
+        for ext in ('TRUE', 'FALSE'):
+            for mode in ('pn', 'semi'):
+                gcfg = ('SPECIFICATION Spec\nCONSTANTS\n MaxLen = %d\n Extend = %s\n PostMode = "%s"\n'
+                        'INVARIANT NoIndexError\nINVARIANT KidsTile\nINVARIANT GroupEdges\n' % (6 if quick else 7, ext, mode))
+                gr = _tlc.run(ctx.workdir, 'GroupInfix', gcfg, workers=8, label='GroupInfix_%s_%s' % (ext, mode), coverage=False, timeout=900)
+                ctx.add_tlc(gr, 'GroupInfix exhaustive (Extend=%s, post=%s)' % (ext, mode))
         from .. import treeops
         treeops.model_check(ctx, 4 if quick else 5, 3, 'TreeOps')
         nl = 6
